@@ -121,3 +121,57 @@ Theorem sem_rotation_visits_every_slot :
   forall n r k, r < n -> k < n ->
     exists j, j < n /\ Nat.iter j (fun x => S x mod n) r = k.
 Proof. exact sem_rotation_lemma. Qed.
+
+(* ---- lock users together with cleanup_lockdir (runc / stepc: a KClean process runs the clean-up of the lock
+   directory, as TileLocker.lock does on every 50th call).  The modification time the clean-up reads is supplied by
+   the environment (label OMtime), like the clock. *)
+
+(* As long as no clean-up pass gets as far as os.unlink, the lock users are not disturbed: one process per lock
+   file ... *)
+Theorem mutex_with_cleanup :
+  forall chk cfg l s p q k,
+    safe chk cfg -> runc chk cfg init l = Some s -> no_unlink l ->
+    inside_at s p k -> inside_at s q k -> p = q.
+Proof. exact mutex_with_cleanup_lemma. Qed.
+
+(* ... and at most n inside a semaphore. *)
+Theorem semaphore_bounded_with_cleanup :
+  forall cfg n l s pids,
+    (forall p, nslots (cfg p) <= n) -> runc true cfg init l = Some s -> no_unlink l ->
+    NoDup pids -> (forall p, In p pids -> inside s p) -> length pids <= n.
+Proof. exact bounded_with_cleanup_lemma. Qed.
+
+(* The age guard: a clean-up pass reaches os.unlink only from a modification-time reading m < expire_time, where
+   expire_time = (clock reading of this cleanup_lockdir call) - max_lock_time; emptiness of the file, its owner or
+   anything else plays no role (what the seeded change "also remove empty lock files" breaks). *)
+Theorem cleanup_age_guard :
+  forall chk cfg s p o s' r e,
+    is_clean (cfg p) = true -> stepc chk cfg s p o = Some (s', r, e) ->
+    match st_pc (ps s' p) with
+    | CScan ex => exists t, o = OTime t /\ ex = (t - p_timeout (cfg p))%Z
+    | CStat ex => st_pc (ps s p) = CScan ex /\ o = OList
+    | CUnlink => exists ex m, st_pc (ps s p) = CStat ex /\ o = OMtime (Some m) /\ (m < ex)%Z /\ path s' = path s
+    | Idle => True
+    | _ => False
+    end.
+Proof. exact cleanup_guard_step_lemma. Qed.
+
+(* cleanup_never_removes_held_file_partial.  What is proved: the two theorems above (no unlink without an old
+   reading; no disturbance without an unlink).  What is NOT proved: that a held file never reads old - that needs
+   the file's modification time and the holder's holding time in the model (mtime >= acquisition time, holding
+   time <= max_lock_time = lock_timeout + 10 s); and it is false without that bound: the documented override, and
+   because getmtime and unlink are two calls, a stale file that is locked between them loses its name too. *)
+Theorem cleanup_override_refuted :
+  exists s, runc true clean_cfg init override_schedule = Some s /\ inside_at s 0 0 /\ inside_at s 1 0.
+Proof. exact cleanup_override_two_inside. Qed.
+
+(* unlock() is idempotent: outside the locked section no release call is enabled (os.remove never; close only as
+   the drop of the file an unlock-by-remove left open, which changes no path), so a second unlock() or __del__
+   cannot touch the lock file of the next holder. *)
+Theorem unlock_idempotent :
+  forall chk cfg s p,
+    st_pc (ps s p) = Idle ->
+    step chk cfg s p ORemove = None /\
+    (st_zomb (ps s p) = None -> step chk cfg s p OClose = None) /\
+    (forall s' r e, step chk cfg s p OClose = Some (s', r, e) -> path s' = path s /\ st_pc (ps s' p) = Idle).
+Proof. exact unlock_idempotent_lemma. Qed.
